@@ -39,6 +39,12 @@ CHECKS = {
  "C15": (True, "exploration", "deterministic simulation: simulator-controlled die source; min/max-mode runs vs real streams and forced extreme faces",
    "For sums of non-exploding dice terms times non-negative constants: min-mode and max-mode draw zero dice from any generator (ledger + generator bytes), every result under 6 real streams and under forced face vectors (all lowest, all highest, alternating, CoC tens dice at 0) lies within [min-mode, max-mode], and for plain XdY terms the forced extreme faces reproduce the bounds exactly. Each term is checked alone first so that a violation names the family that causes it.",
    "Monotone expressions only (as the property states).", "DESIGN.md §4 C15", ENGINE_SESSION),
+ "C02": (True, "exploration", "deterministic simulation: histories on one VM incl. failed, budget-aborted and cancelled evaluations; twin run used VM vs fresh VM with copied state",
+   "Decides the history clause only ('sequences of evaluations on one VM, including after failed ones'): before every command of a simulated session the VM's variables are deep-copied and its generator captured, and the command is replayed on a fresh VM given exactly that; any difference in outcome, variables, op count or cancellation point is state leaking from the VM's past.",
+   "NOT decided: whether a single evaluation computes the value the language definition prescribes (needs an independent reference interpreter = differential testing, a different technique).", "DESIGN.md §4 C02", ENGINE_SESSION),
+ "C17": (True, "exploration", "deterministic simulation: host callbacks as seams; twin run with/without inert extensions; exactly-once over the handler invocation log; handler fault injection",
+   "The simulated host implements every extension point. Twin sessions with and without inert extensions (never-matching regex customs, stream parsers that read ahead and decline, pass-through load/store hooks, identity detail rewriters) must agree in every outcome. For an acting operator the invocation log is checked against the executed custom-dice instructions (exactly once), the groups against the source, the returned value for use by copy, and injected handler faults (error, nil, stream parser error) must surface as errors.",
+   "Callback behaviours stay within the documented contracts.", "DESIGN.md §4 C17", ENGINE_SESSION),
 }
 
 NA = {
